@@ -373,11 +373,16 @@ func (p *Printer) class(e *Expr) string {
 	var sb strings.Builder
 	double := e.CI
 	if !double {
-		// [[...]] is equivalent when the class contains no letters
+		// [[...]] is equivalent when no member is affected by case folding: peg folds the
+		// bounds of a range with the Unicode tables and single ASCII letters
 		hasLetter := false
+		caseless := func(r rune) bool { return unicode.ToLower(r) == r && unicode.ToUpper(r) == r }
 		for _, it := range e.Items {
-			if isASCIILetter(it.Lo) || isASCIILetter(it.Hi) || (it.Lo < 'A' && it.Hi > 'z') || (it.Lo <= 'Z' && it.Hi >= 'a') ||
-				(it.Lo != it.Hi && it.Lo <= 'z' && it.Hi >= 'A') {
+			if it.Lo == it.Hi {
+				if isASCIILetter(it.Lo) {
+					hasLetter = true
+				}
+			} else if !caseless(it.Lo) || !caseless(it.Hi) {
 				hasLetter = true
 			}
 		}
